@@ -220,6 +220,14 @@ MUTANTS = [
      "    if ps.is_bool_constant():\n        if not ps.bool_constant_value():\n            return (False, [])", "    if ps.is_bool_constant():\n        if ps.bool_constant_value():\n            return (False, [])", "check_and_simplify_preconditions"),
     ("C06", "unified_planning/engines/compilers/utils.py",
      "        if ps.is_and():\n            nap.extend(ps.args)", "        if ps.is_and():\n            nap.extend(ps.args[1:])", "check_and_simplify_preconditions"),
+    ("C25", "unified_planning/model/delta_stn.py",
+     "                return neighbor.bound <= b", "                return neighbor.bound >= b", "_is_subsumed"),
+    ("C25", "unified_planning/model/delta_stn.py",
+     "            self._constraints.copy(),\n            self._distances.copy(),", "            self._constraints.copy(),\n            self._distances,", "copy_stn"),
+    ("C25", "unified_planning/model/delta_stn.py",
+     "                neighbor = DeltaNeighbors(y, b, x_constraints)", "                neighbor = DeltaNeighbors(y, b, None)", "DeltaSimpleTemporalNetwork.add"),
+    ("C25", "unified_planning/model/delta_stn.py",
+     "        if self._is_sat:\n            self._distances.setdefault(x, cast(T, 0))", "        if True:\n            self._distances.setdefault(x, cast(T, 0))", "DeltaSimpleTemporalNetwork.add"),
     ("C11", "unified_planning/model/walkers/simplifier.py",
      "            return self.manager.Bool(not l)", "            return self.manager.Bool(l)", "walk_not"),
 ]
